@@ -279,6 +279,7 @@ func checkC06(c *Check) {
 		}
 		var rejectSlots, quarSlots []slot
 		onceUsers := map[string]int{}
+		bothMsg, nBoth := "", 0
 		ast.Inspect(r.FI.Decl.Body, func(n ast.Node) bool {
 			call, ok := n.(*ast.CallExpr)
 			if !ok || !isCall(info, call, "sync.Once.Do") || len(call.Args) != 1 {
@@ -334,6 +335,10 @@ func checkC06(c *Check) {
 				switch {
 				case onR && !onQ && !onNone:
 					guard = "reject"
+					nBoth++
+					if !reach(true, true) {
+						bothMsg = "a check result that carries both verdicts (Reject and Quarantine: FailAction.Apply ORs the configured action into what the check itself set; a milter can answer reject and ask for quarantine) is recorded as a quarantine only – line " + itoa(p0(c.P, call.Pos())) + " is not reached when Quarantine is set: the message a check rejected is accepted and delivered (flagged)"
+					}
 				case onQ && !onR && !onNone:
 					guard = "quarantine"
 				default:
@@ -370,6 +375,11 @@ func checkC06(c *Check) {
 			}
 		}
 		c.Hold("R3", "runAndMergeResults:separate-slots", r.FI.Decl.Pos(), msg == "", msg)
+		c.Rule("R3d", "runAndMergeResults: the stricter verdict wins inside one result too – the reject slot is reached whenever Reject is set, whether or not Quarantine is set as well", 1)
+		if nBoth == 0 {
+			bothMsg = "undecided: no store guarded by the Reject verdict alone was found"
+		}
+		c.Hold("R3d", "runAndMergeResults:reject-with-quarantine", r.FI.Decl.Pos(), bothMsg == "", bothMsg)
 		// after Wait: first decision returns the reject slot
 		waits := r.Calls(calling("sync.WaitGroup.Wait"))
 		msg = ""
